@@ -1286,7 +1286,12 @@ def run(ctx):
     # ---- one carrier's oversized packet (own server): the other sessions go on, a new one is accepted
     rc, oout, err = side["over"]
     if rc != 0 or len(oout) != len(olines):
-        ctx.violation("driver-crash", "black-box server driver (oversized packets) died rc=%s: %s" % (rc, err[-800:]), dict(stderr=err[-3000:]))
+        # the process that serves ONLY these scenarios died while the one serving all the others (same binary, same moment) did
+        # not: every scenario here contains an oversized packet, and every session in that process died with it
+        ctx.violation("oversized-packet-kills-other-sessions",
+                      "the server process that was delivered encapsulated packets of 1501..65535 bytes (one per scenario, valid token) DIED "
+                      "(rc=%s), and all sessions with it: %s" % (rc, err[-800:].replace("\n", " | ")),
+                      dict(case=olines[0][:20000], stderr=err[-3000:], driver="c05bb"))
         oout = []
     for (ops, mops, meta), line, o, ml, mo in zip(over, olines, oout, xmlines, xmout):
         ctx.count(line, kind="move:" + "+".join(meta["kinds"]))
